@@ -129,6 +129,45 @@ def run(ctx):
         except Exception as ex:
             import traceback
             viol.append(dict(case, kind="integrate/step raised", error=repr(ex)[:300], trace=traceback.format_exc()[-600:]))
+    # initial STATES given by trainables / data_set, with a continuation: the states passed in `all_states` are the state of
+    # the simulation; the trainable / data_set values are initial conditions of the FIRST call only
+    try:
+        for rep in range(ctx.budget(2, 6)):
+            with quiet():
+                cellT = simlib.build_cell(rng, [-1, 0], [2, 1])
+                cellT.insert(HH())
+                cellT.record("v")
+                cellT.record("HH_m")
+                cellT.record("HH_h")
+                cellT.select(nodes=[1]).make_trainable("HH_m")
+                cellT.select(nodes=[0, 2]).make_trainable("HH_n")
+                params = cellT.get_parameters()
+            params = [{k: jnp.asarray(np.asarray(v) * 0 + (0.6 if k == "HH_m" else 0.45)) for k, v in p.items()} for p in params]
+            nst = rng.randint(4, 7)
+            cur = jnp.asarray([simlib.dy(rng, 0, 1, 16) for _ in range(nst)])
+            vs_ = rng.choice(["jaxley.thomas", "jaxley.stone", "jax.sparse"])
+            caseT = {"cell": "[-1,0] x [2,1] with HH", "trainable_states": {"HH_m": [1], "HH_n": [0, 2]}, "data_set": {"HH_h": [2]}, "nsteps": nst, "voltage_solver": vs_}
+
+            def simT(c_, **extra):
+                with quiet():
+                    cellT.delete_stimuli()
+                    pst = cellT.select(nodes=[2]).data_set("HH_h", 0.25, None)
+                    cellT.select(nodes=[0]).stimulate(c_)
+                    return jx.integrate(cellT, params=params, param_state=pst, delta_t=0.025, voltage_solver=vs_, **extra)
+            fullT = np.asarray(simT(cur))
+            evals += 1
+            for n1 in sorted(set([1, nst // 2, nst - 1])):
+                r1, st = simT(cur[:n1], return_states=True)
+                r2 = simT(cur[n1:], all_states=st)
+                evals += 2
+                glued = np.concatenate([np.asarray(r1), np.asarray(r2)[:, 1:]], axis=1)
+                if glued.shape != fullT.shape or not np.allclose(glued, fullT, rtol=0, atol=1e-9 * max(1.0, float(np.abs(fullT).max()))):
+                    viol.append(dict(caseT, kind="continuing from returned states differs from one call when initial states are trainable / set by data_set (they were applied again on top of all_states?)",
+                                     split=[n1, nst - n1], maxdiff=float(np.abs(glued - fullT).max()) if glued.shape == fullT.shape else None))
+                    break
+    except Exception as ex:
+        import traceback
+        viol.append({"kind": "continuation with trainable states raised", "error": repr(ex)[:300], "trace": traceback.format_exc()[-600:]})
     import regress
     evals += regress.run("C07", viol)
     for v in viol:
